@@ -103,9 +103,18 @@ func init() {
 		scen := fs.String("scenarios", "", "write the scenarios (JSON lines) here")
 		park := fs.Bool("park", false, "park mode")
 		par := fs.Int("par", 8, "histories run in parallel (free-running mode)")
+		kind := fs.String("kind", "", "only scenarios of this subject kind (publish behavior replay async unicast)")
 		_ = fs.Parse(args)
 		kernel.InstallHooks()
 		r := rand.New(rand.NewSource(*seed))
+		genSubj := func(r *rand.Rand) kernel.SubjScenario {
+			for {
+				sc := kernel.GenSubj(r)
+				if *kind == "" || sc.Kind == *kind {
+					return sc
+				}
+			}
+		}
 		w, err := rec.NewWriter(*out)
 		if err != nil {
 			fmt.Fprintln(os.Stderr, err)
@@ -142,7 +151,7 @@ func init() {
 				return pk.Hits()
 			}
 			for i := 0; i < *n; i++ {
-				sc := kernel.GenSubj(r)
+				sc := genSubj(r)
 				if len(sc.Scripts) > 3 {
 					sc.Scripts = sc.Scripts[:3]
 				}
@@ -159,7 +168,7 @@ func init() {
 			scs := make([]kernel.SubjScenario, *n)
 			res := make([][]rec.Ev, *n)
 			for i := range scs {
-				scs[i] = kernel.GenSubj(r)
+				scs[i] = genSubj(r)
 			}
 			sem := make(chan struct{}, *par)
 			var wg sync.WaitGroup
